@@ -287,6 +287,22 @@ static void perturb_heap (int pat)
 	for (int i = 0 ; i < 256 ; i++) free (blocks [i]) ;
 }
 
+/* write-side command settings ("the open parameters" of the statement): applied right after the open, to the single-call file and to the split runs alike */
+enum { C07_SET_NONE = 0, C07_SET_DITHER, C07_SET_CLIP, C07_SET_NONORM, C07_NSET } ;
+static const char *c07_set_names [C07_NSET] = { "none", "dither", "clipping", "nonorm+scale" } ;
+static int c07_setting ;
+static void c07_apply_setting (SNDFILE *sf)
+{	SF_DITHER_INFO di ;
+	vl_inlib ++ ;
+	switch (c07_setting)
+	{	case C07_SET_DITHER : memset (&di, 0, sizeof (di)) ; di.type = SFD_WHITE ; di.level = 1.0 ; sf_command (sf, SFC_SET_DITHER_ON_WRITE, &di, sizeof (di)) ; break ;
+		case C07_SET_CLIP : sf_command (sf, SFC_SET_CLIPPING, NULL, SF_TRUE) ; break ;
+		case C07_SET_NONORM : sf_command (sf, SFC_SET_NORM_FLOAT, NULL, SF_FALSE) ; sf_command (sf, SFC_SET_NORM_DOUBLE, NULL, SF_FALSE) ; sf_command (sf, SFC_SET_SCALE_INT_FLOAT_WRITE, NULL, SF_TRUE) ; break ;
+		default : break ;
+		}
+	vl_inlib -- ;
+}
+
 /* segments: nseg lengths in frames; fvar bit k: segment k uses sf_writef_T; upd bit k: SFC_UPDATE_HEADER_NOW after segment k */
 static int c07_write (const Fmt *f, int ch, int type, const void *buf, const long *seg, int nseg, unsigned fvar, unsigned upd, long *accepted)
 {	SF_INFO info ; SNDFILE *sf ; long off = 0 ; int rc ;
@@ -294,6 +310,7 @@ static int c07_write (const Fmt *f, int ch, int type, const void *buf, const lon
 	rt_info (&info, f, ch, fmt_default_rate (f)) ;
 	sf = md_open (&rt_dev, SFM_WRITE, &info) ;
 	if (sf == NULL) return -1 ;
+	c07_apply_setting (sf) ;
 	*accepted = 0 ;
 	for (int k = 0 ; k < nseg ; k++)
 	{	const char *p = (const char *) buf + off * ch * type_size [type] ;
@@ -308,13 +325,13 @@ static int c07_write (const Fmt *f, int ch, int type, const void *buf, const lon
 	return rc ;
 }
 
-static struct { int fi, ch, type, g ; long N ; uint64_t hash ; sf_count_t len ; unsigned char *bytes ; int ok ; void *buf ; } c07_base = { -1 } ;
+static struct { int fi, ch, type, g, set ; long N ; uint64_t hash ; sf_count_t len ; unsigned char *bytes ; int ok ; void *buf ; } c07_base = { -1 } ;
 
 static void c07_baseline (int fi, const Fmt *f, int ch, int type, int g, long N)
 {	long acc, seg [1] = { N } ;
-	if (c07_base.fi == fi && c07_base.ch == ch && c07_base.type == type && c07_base.g == g && c07_base.N == N) return ;
+	if (c07_base.fi == fi && c07_base.ch == ch && c07_base.type == type && c07_base.g == g && c07_base.N == N && c07_base.set == c07_setting) return ;
 	free (c07_base.buf) ; free (c07_base.bytes) ;
-	c07_base.fi = fi ; c07_base.ch = ch ; c07_base.type = type ; c07_base.g = g ; c07_base.N = N ;
+	c07_base.fi = fi ; c07_base.ch = ch ; c07_base.type = type ; c07_base.g = g ; c07_base.N = N ; c07_base.set = c07_setting ;
 	c07_base.buf = malloc (N * ch * type_size [type] + 1) ;
 	gen_fill (g, type, c07_base.buf, N * ch, f->width ? f->width : 16, f->is_float) ;
 	c07_base.ok = (c07_write (f, ch, type, c07_base.buf, seg, 1, 0, 0, &acc) == 0) ;
@@ -404,6 +421,21 @@ void run_c07 (void)
 								}
 							}
 						}
+					/* the same with a write-side command setting in force (quick: first generator only) */
+					if (gi == 0 || vl_opts.thorough)
+						for (c07_setting = 1 ; c07_setting < C07_NSET ; c07_setting ++)
+						{	char cls [48] ;
+							seg [0] = N ;
+							snprintf (cls, sizeof (cls), "frames-variant+set:%s", c07_set_names [c07_setting]) ;
+							C07 (cls, 1, 1, 0, 0, "whole frames-variant set=%s", f->name, ch, type_names [type], gen_names [g], N, c07_set_names [c07_setting])
+							for (int a = 0 ; a < nsp ; a++)
+							{	seg [0] = sp [a] ; seg [1] = N - sp [a] ;
+								snprintf (cls, sizeof (cls), "split+set:%s", c07_set_names [c07_setting]) ;
+								C07 (cls, 2, 0, 0, 0, "split=%ld set=%s", f->name, ch, type_names [type], gen_names [g], N, sp [a], c07_set_names [c07_setting])
+								C07 (cls, 2, 1, 0, 0, "split=%ld fvar=1 set=%s", f->name, ch, type_names [type], gen_names [g], N, sp [a], c07_set_names [c07_setting])
+								}
+							}
+					c07_setting = 0 ;
 					}
 				}
 			}
